@@ -85,6 +85,27 @@ def build(prop, tier="quick"):
     if "if (!has_arity_match)" not in " ".join(fs.body.split()) or "throw exception::bad_boxed_cast" not in fs.body:
         raise ExtractionBreak("functor(): `if (!has_arity_match) throw bad_boxed_cast` not found")
 
+    # --- Dispatch_Engine::is_attribute_call: the predicate handed to std::any_of.  `obj.name(args)` is treated as "fetch the
+    # attribute `name` of obj, then call the result with args" only if some overload of `name` is an attribute function WHOSE
+    # OBJECT TYPE ACCEPTS obj; otherwise the call is an ordinary method call with all its arguments (exact match first).
+    dkh = chai2c.Header("include/chaiscript/dispatchkit/dispatchkit.hpp")
+    ia = dkh.slice_function("static bool is_attribute_call(const std::vector<Proxy_Function> &t_funs,")
+    mm = re.search(r"std::any_of\(std::begin\(t_funs\), std::end\(t_funs\), \[[&=]?\]\(const auto &fun\)\s*\{", ia.body)
+    if not mm:
+        raise ExtractionBreak("is_attribute_call(): the predicate (lambda in std::any_of) not found")
+    base = ia.ob + 1
+    ob = base + mm.end() - 1
+    cb = chai2c.match_brace(dkh.masked, ob)
+    asl = chai2c.Slice(dkh, "is_attribute_call: predicate", base + mm.start(), ob, cb)
+    r = Rules("is_attribute_call")
+    r.add("R9.isattr", r"\bfun->is_attribute_function\(\)", "fun_is_attribute", min_fire=1)
+    r.add("R9.first", r"\bfun->compare_first_type\(t_params\[0\], t_conversions\)", "first_type_accepts")
+    r.extend(base_rules())
+    c = C("is_attribute_call_pred")
+    kb.emit_function("bool is_attribute_call_pred(bool fun_is_attribute, bool first_type_accepts)", asl, r, c.fn, c.loops, "is_attribute_call_pred")
+    kb.add('void h_is_attribute_call_pred(void) { bool a = verif_nondet_bool(), b = verif_nondet_bool(); is_attribute_call_pred(a, b); VERIF_CANARY("predicate returns normally"); }')
+    kb.targets.append(Target("is_attribute_call_pred", "h_is_attribute_call_pred"))
+
     # --- dispatch(): the numdiffs loop
     ds = pf.slice_function("Boxed_Value dispatch(const Funcs &funcs, const Function_Params &plist, const Type_Conversions_State &t_conversions)")
     body = ds.body
